@@ -66,12 +66,13 @@ Definition parse_upstream_auth (auth : list N) : parse_result :=
        | Some b => POk (basic_prefix ++ b64encode b)
        end.
 
-(* UpstreamAuth.configure: the value of self.auth afterwards (None when the option is None; an error leaves
-   the class default None because the option update is rejected) *)
-Definition configure (opt : option (list N)) : option bytes :=
+(* UpstreamAuth.configure after an update of the option upstream_auth: the value of self.auth afterwards, given the
+   value before (None when the option is None; when parse_upstream_auth raises, the option update is rolled back
+   and self.auth keeps its value) *)
+Definition configure (old : option bytes) (opt : option (list N)) : option bytes :=
   match opt with
   | None => None
-  | Some s => match parse_upstream_auth s with POk v => Some v | _ => None end
+  | Some s => match parse_upstream_auth s with POk v => Some v | _ => old end
   end.
 
 (* ------------------------------------------------------------------ Headers.__setitem__ (MultiDict.set_all key [value]) *)
@@ -109,7 +110,7 @@ Definition is_upstream (p : pmode) : bool := match p with PUpstream _ => true | 
 Definition is_reverse (p : pmode) : bool := match p with PReverse _ _ => true | _ => false end.
 
 Record config := {
-  c_auth : option bytes;        (* UpstreamAuth.auth *)
+  c_auth : option bytes;        (* UpstreamAuth.auth at the time a hook runs (wstep takes it from ws_auth) *)
   c_send_host : bool;           (* option http_connect_send_host_header *)
   c_eager : bool;               (* option connection_strategy == eager *)
   c_fixed : bool                (* tree has fixes/C24-tunnelled-plain-http.diff *)
@@ -324,14 +325,20 @@ Definition step (cfg : config) (in_set : bool) (st : cstate) (ev : event) : csta
 (* ------------------------------------------------------------------ several client connections, one addon *)
 Inductive wevent :=
 | WOpen (c : N) (pm : pmode)        (* a client connects to a listener running in mode pm *)
-| WEv (c : N) (ev : event).
+| WEv (c : N) (ev : event)
+| WConfigure (opt : option (list N))   (* the option upstream_auth is updated at run time: configure hook *)
+| WClose (c : N).                   (* the client disconnects *)
 
 Record wstate := {
+  ws_auth : option bytes;           (* UpstreamAuth.auth *)
   ws_set : list N;                  (* UpstreamAuth.tunnelled (ids of client connections) *)
   ws_conns : list (N * cstate)
 }.
 
-Definition ws_init : wstate := {| ws_set := []; ws_conns := [] |}.
+Definition ws_init : wstate := {| ws_auth := None; ws_set := []; ws_conns := [] |}.
+
+Definition with_auth (cfg : config) (a : option bytes) : config :=
+  {| c_auth := a; c_send_host := cfg.(c_send_host); c_eager := cfg.(c_eager); c_fixed := cfg.(c_fixed) |}.
 
 Fixpoint lookup (c : N) (l : list (N * cstate)) : option cstate :=
   match l with
@@ -353,16 +360,26 @@ Definition wstep (cfg : config) (ws : wstate) (e : wevent) : wstate * list (N * 
   | WOpen c pm =>
       match lookup c ws.(ws_conns) with
       | Some _ => (ws, [])          (* ids are not reused *)
-      | None => ({| ws_set := ws.(ws_set); ws_conns := ws.(ws_conns) ++ [(c, init_cstate cfg pm)] |}, [])
+      | None => ({| ws_auth := ws.(ws_auth); ws_set := ws.(ws_set);
+                    ws_conns := ws.(ws_conns) ++ [(c, init_cstate cfg pm)] |}, [])
       end
   | WEv c ev =>
       match lookup c ws.(ws_conns) with
       | None => (ws, [])
       | Some st =>
-          let '(st', wr, connected) := step cfg (mem c ws.(ws_set)) st ev in
-          ({| ws_set := if connected && cfg.(c_fixed) then c :: ws.(ws_set) else ws.(ws_set);
+          let '(st', wr, connected) := step (with_auth cfg ws.(ws_auth)) (mem c ws.(ws_set)) st ev in
+          (* http_connected records the client whatever the option value is at that time *)
+          ({| ws_auth := ws.(ws_auth);
+              ws_set := if connected && cfg.(c_fixed) then c :: ws.(ws_set) else ws.(ws_set);
               ws_conns := update c st' ws.(ws_conns) |},
            map (fun w => (c, w)) wr)
+      end
+  | WConfigure opt =>
+      ({| ws_auth := configure ws.(ws_auth) opt; ws_set := ws.(ws_set); ws_conns := ws.(ws_conns) |}, [])
+  | WClose c =>
+      match lookup c ws.(ws_conns) with
+      | None => (ws, [])
+      | Some st => ({| ws_auth := ws.(ws_auth); ws_set := ws.(ws_set); ws_conns := update c (dead st) ws.(ws_conns) |}, [])
       end
   end.
 
